@@ -19,10 +19,12 @@ def run(ctx):
     ctx.rule("C06.R1", "K11", "accumulate-then-search: after every read the delimiter search / k-byte comparison is redone on the whole accumulator (or a top-up loop guarantees k bytes)")
     ctx.rule("C06.R2", "K11", "delimiter arithmetic: residue starts right behind the delimiter; prefix excludes or includes it entirely; k == len(CONST) for constant splits")
     ctx.rule("C06.R3", "K11", "split-pair conservation: every prefix slice has its complementary suffix slice, and the suffix is used (unread / returned / re-buffered)")
+    ctx.rule("C06.R5", "K4", "a limit applied to an incomplete line never rejects what one more read could complete into an accepted line (rejection point independent of the split)")
     ctx.rule("C06.R4", "K5", "layering: only Unreader touches the socket/iterator; parsers obtain bytes through unreader.read() and give surplus back through unreader.unread()")
     r1(ctx)
     r23(ctx)
     r4(ctx)
+    r5(ctx)
 
 
 # ---------------------------------------------------------------------------- helpers
@@ -380,3 +382,39 @@ def r4(ctx):
             ctx.check("C06.R4", touched == want, key(f, "pushback-first|size=%s|buffered=%s" % (size, tell)), site(f, text="read(%s) with %d pushed-back bytes" % (size, tell)),
                       "Unreader.read(%s) with %d pushed-back bytes %s the source (required: %s): pushed-back bytes would be re-ordered or withheld" % (
                           size, tell, "touches" if touched else "does not touch", "touch" if want else "serve the buffer first"), "source touched: %s" % want)
+
+
+def r5(ctx):
+    """read_line: the early rejection of a still incomplete request line must be implied by the rejection of every
+    line it can still become; the shortest completion of L buffered bytes is a line of L-1 bytes (buffer ends in CR,
+    LF arrives next)"""
+    from ..absint import Explorer
+    from .common import len_atom
+    repo = ctx.repo
+    f = ctx.fn(repo.func(MSG + ".Request.read_line"))
+    g = f.cfg
+    LIM = f.params[3]
+    reads = [n for c in walk_own(f.node) if is_read_call(repo, f, c) for n in nodes_with(f, c)]
+    loop = [w for w in walk_own(f.node) if isinstance(w, ast.While)]
+    ctx.need(loop and reads, "C06.R5: read_line loop not recognised")
+    head = [n for n in g.nodes_of(loop[0]) if n.kind == "join"][0]
+
+    def atom_of(e):
+        if isinstance(e, ast.Call) and isinstance(e.func, ast.Attribute) and e.func.attr == "find":
+            return "IDX"
+        return len_atom(e) and "LEN"
+
+    def outcome(limit, idx, ln):
+        ex = Explorer(f, atom_of=atom_of)
+        outs = ex.run(head, {LIM: limit, "IDX": idx, "LEN": ln}, stop=lambda n: n in reads)
+        return set("reject" if o.kind == "raise" else ("read-more" if o.kind == "stop" else "line") for o in outs)
+    bad = []
+    for limit in (1, 10, 4094):
+        for L in range(max(limit - 2, 1), limit + 6):
+            inc = outcome(limit, -1, L)
+            if inc == {"reject"}:
+                comp = outcome(limit, L - 1, L + 1)      # the same bytes plus LF: CRLF found at L-1
+                if comp != {"reject"}:
+                    bad.append("limit=%d: %d buffered bytes without CRLF are rejected, but the same stream delivered with one more byte is the accepted %d-byte line" % (limit, L, L - 1))
+    ctx.check("C06.R5", not bad, key(f, "early-reject-implies-reject"), site(f),
+              "the early rejection of an incomplete request line depends on where the read boundary falls: " + "; ".join(bad[:2]), "early rejection only of lines that cannot be accepted any more")
